@@ -225,4 +225,12 @@ def r11_4(run):
     r7_1(run, only={"derivatives_thermal"}, floor=4, residual_only=True)
 
 
-RULES = [("R11.1", r11_1), ("R11.2", r11_2), ("R11.3", r11_3), ("R11.4", r11_4)]
+def r11_5(run):
+    """the heat a consumer / exchanger reports is mdot * cp_mean * temperature drop with the same mean heat capacity the thermal
+    branch equation uses: that equation is the documented law with cp evaluated at the branch's own inlet and outlet temperature
+    (shared with C10 R10.1)"""
+    from .c10 import r10_1
+    r10_1(run)
+
+
+RULES = [("R11.1", r11_1), ("R11.2", r11_2), ("R11.3", r11_3), ("R11.4", r11_4), ("R11.5", r11_5)]
